@@ -109,13 +109,17 @@ func c09MakeCA(path string, parent *c09CA, root int, ctEKU bool, wrongSigner boo
 		keyLabel = path[:len(path)-1] // the twin has the same key and name as the genuine CA
 	}
 	key := c09Key("ca " + keyLabel)
+	nameLabel := keyLabel
+	if parent == nil && root >= 8 {
+		nameLabel = fmt.Sprintf("R%d", root-8) // re-keyed twin of root-8: same subject, its own key
+	}
 	notAfter := time.Date(2100, 1, 1, 0, 0, 0, 0, time.UTC)
 	if root%2 == 0 {
 		notAfter = time.Date(2049, 6, 1, 0, 0, 0, 0, time.UTC)
 	}
 	tmpl := &x509.Certificate{
 		SerialNumber:          c09Serial(path),
-		Subject:               pkix.Name{Organization: []string{"verif"}, CommonName: "c09 " + keyLabel},
+		Subject:               pkix.Name{Organization: []string{"verif"}, CommonName: "c09 " + nameLabel},
 		NotBefore:             time.Date(2000, 1, 1, 0, 0, 0, 0, time.UTC),
 		NotAfter:              notAfter,
 		KeyUsage:              x509.KeyUsageCertSign | x509.KeyUsageCRLSign | x509.KeyUsageDigitalSignature,
